@@ -37,6 +37,15 @@ CHECKS = {
     "C11": ("Reads into destinations whose prior state came from assignment or from a read that failed at primitive k are "
             "compared (status, value, consumed) with the read into a fresh object; lifetime ledger of Tracked elements must "
             "balance; ASan/UBSan build.", "6 C11"),
+    "C16": ("IO.tla automata of BoundedReader/BoundedWriter: MC_IO explores every call sequence (sizes incl. 0, budget, "
+            "budget+1, 2^64-1, 2^64-2; every limit; wrapped object failing at any call) and checks Confine, "
+            "RefusalUntouched, Transparent; TLC-generated sequences (Gen_IO) and random sequences are replayed on real "
+            "BoundedReader/BoundedWriter over an instrumented wrapped object and every call is validated by TrIO.tla "
+            "(status, index, wrapped position, exact wrapped calls).", "6 C16"),
+    "C17": ("The same TLC-generated and random call sequences are executed directly on every library reader and writer "
+            "(and Bounded over each) with element widths 1/2/4/8; TrIO.tla requires each call to be the step of the "
+            "IO.tla contract automaton up to and including the first failing call; MC_IO checks OneContract on the "
+            "product of all kinds.", "6 C17"),
 }
 
 PENDING_REASON = "check under construction in this session (DESIGN.md section 12); moves to checks when built"
